@@ -182,6 +182,7 @@ func checkC20(w *World, r *Report) {
 	w.checkKeyedAccess(r, keyT)
 	w.checkEntriesOnlyUnderKeys(r, keyT, entryT)
 	w.checkAttributeAccessCoversMaps(r, keyT)
+	checkMapKeysAreChecked(w, r)
 }
 
 // keyRef: the cache key as one function sees it — a local literal (typ/attr = the values stored
@@ -1445,4 +1446,103 @@ func iterationConds(in ssa.Instruction, elem ssa.Value) []ssa.Value {
 	}
 	collect(b, 0)
 	return out
+}
+
+// checkMapKeysAreChecked — R20.9: the key a map is searched with is the subscript, not a guess.
+// For every reflect.Value.MapIndex call, the key does not derive from the first result of a
+// conversion whose error / ok result is discarded (`n, _ := toNumber(index)`): when the subscript is
+// not a number that conversion yields 0, and an integer-keyed map is then searched for key 0 —
+// x.label and x['label'] answer with m[0] instead of nothing.
+func checkMapKeysAreChecked(w *World, r *Report) {
+	n := 0
+	for _, fn := range w.pkgFuncs() {
+		instrsOf(fn, func(in ssa.Instruction) {
+			c, ok := in.(*ssa.Call)
+			if !ok {
+				return
+			}
+			g := c.Call.StaticCallee()
+			if g == nil || g.String() != "(reflect.Value).MapIndex" || len(c.Call.Args) != 2 {
+				return
+			}
+			n++
+			bad := ""
+			seen := map[ssa.Value]bool{}
+			var walk func(v ssa.Value, d int)
+			walk = func(v ssa.Value, d int) {
+				if v == nil || seen[v] || d > 10 || bad != "" {
+					return
+				}
+				seen[v] = true
+				switch x := v.(type) {
+				case *ssa.Phi:
+					for _, e := range x.Edges {
+						walk(e, d+1)
+					}
+				case *ssa.MakeInterface:
+					walk(x.X, d+1)
+				case *ssa.Convert:
+					walk(x.X, d+1)
+				case *ssa.ChangeType:
+					walk(x.X, d+1)
+				case *ssa.BinOp:
+					walk(x.X, d+1)
+					walk(x.Y, d+1)
+				case *ssa.UnOp:
+					if al, ok := x.X.(*ssa.Alloc); ok && al.Referrers() != nil {
+						for _, ref := range *al.Referrers() {
+							if st, ok := ref.(*ssa.Store); ok && st.Addr == ssa.Value(al) {
+								walk(st.Val, d+1)
+							}
+						}
+					}
+				case *ssa.Call:
+					if h := x.Call.StaticCallee(); h != nil {
+						switch h.String() {
+						case "reflect.ValueOf", "(reflect.Value).Convert", "reflect.Indirect":
+							walk(x.Call.Args[0], d+1)
+						}
+					}
+				case *ssa.Extract:
+					call, ok := x.Tuple.(*ssa.Call)
+					if !ok || x.Index != 0 {
+						return
+					}
+					res := call.Call.Signature().Results()
+					if res.Len() < 2 {
+						return
+					}
+					// (value, error) or (value, ok)
+					last := res.At(res.Len() - 1).Type()
+					if b, isBool := last.Underlying().(*types.Basic); !types.Identical(last, errorType) && !(isBool && b.Kind() == types.Bool) {
+						return
+					}
+					// is the error looked at?
+					used := false
+					if call.Referrers() != nil {
+						for _, ref := range *call.Referrers() {
+							if ex, ok := ref.(*ssa.Extract); ok && ex.Index == res.Len()-1 && ex.Referrers() != nil && len(*ex.Referrers()) > 0 {
+								used = true
+							}
+						}
+					}
+					if !used {
+						name := "a call"
+						if h := call.Call.StaticCallee(); h != nil {
+							name = h.Name()
+						}
+						bad = name + " at " + w.posOf(call.Pos())
+					}
+				}
+			}
+			walk(c.Call.Args[1], 0)
+			construct := "map key derives from the subscript, not from an unchecked conversion"
+			if bad == "" {
+				r.ok("R20.9", ssaName(fn), construct, w.posOf(in.Pos()), "no contribution from a conversion whose error is discarded", true)
+			} else {
+				r.bad("R20.9", ssaName(fn), construct, w.posOf(in.Pos()), "the key can be the result of "+bad+", whose error is discarded: for a subscript that does not convert the result is the zero value, and the map is searched for that key — x.name and x['name'] answer with the entry for 0 (or \"\") instead of an empty value")
+			}
+		})
+	}
+	r.floor("reflect map lookups", n, 1)
 }
